@@ -11,7 +11,7 @@ theorem shape_createBatch (s : State) (u bp t : Nat) : Shape s (createBatch s u 
   unfold createBatch
   model_split
   · exact Shape.refl s
-  · exact ⟨⟨id, _, GroupFrame.id, by simp; rfl⟩, ⟨[], by simp⟩, ⟨id, [], JobFrame.id, by simp⟩, JobsUnique.of_jobs_eq rfl⟩
+  · exact ⟨⟨id, _, GroupFrame.id, by simp; rfl, by simp⟩, ⟨[], by simp⟩, ⟨id, [], JobFrame.id, by simp⟩, JobsUnique.of_jobs_eq rfl⟩
 
 theorem shape_createUpdate (s : State) (b t nj ng u : Nat) : Shape s (createUpdate s b t nj ng u).1 := by
   unfold createUpdate
@@ -23,31 +23,26 @@ theorem shape_insertGroup (s s' : State) (b upd gid parent : Nat) (h : insertGro
   unfold insertGroup at h
   split_ifs at h
   simp only [Option.some.injEq] at h; subst h
-  exact ⟨⟨id, _, GroupFrame.id, by simp; rfl⟩, ⟨[], by simp⟩, ⟨id, [], JobFrame.id, by simp⟩, JobsUnique.of_jobs_eq rfl⟩
+  exact ⟨⟨id, _, GroupFrame.id, by simp; rfl, by simp⟩, ⟨[], by simp⟩, ⟨id, [], JobFrame.id, by simp⟩, JobsUnique.of_jobs_eq rfl⟩
 
 theorem foldGroups_none (b upd : Nat) (u : Update) (l : List GroupSpec) :
-    l.foldl (fun acc sp => acc.bind fun st =>
-      insertGroup st b upd (u.startGroup + sp.relId - 1)
-        (match sp.absParent with | some p => p | none => u.startGroup + sp.relParent - 1)) none = none := by
+    l.foldl (groupSpecStep b upd u) none = none := by
   induction l with
   | nil => rfl
-  | cons _ _ ih => simpa using ih
+  | cons _ _ ih => simpa [groupSpecStep] using ih
 
 theorem shape_foldGroups (b upd : Nat) (u : Update) (specs : List GroupSpec) :
-    ∀ (s s' : State),
-      specs.foldl (fun acc sp => acc.bind fun st =>
-        insertGroup st b upd (u.startGroup + sp.relId - 1)
-          (match sp.absParent with | some p => p | none => u.startGroup + sp.relParent - 1)) (some s) = some s' →
-      Shape s s' := by
+    ∀ (s s' : State), specs.foldl (groupSpecStep b upd u) (some s) = some s' → Shape s s' := by
   induction specs with
   | nil => intro s s' h; simp at h; subst h; exact Shape.refl s
   | cons sp rest ih =>
     intro s s' h
-    simp only [List.foldl_cons, Option.bind_some] at h
-    cases hmid : insertGroup s b upd (u.startGroup + sp.relId - 1)
-        (match sp.absParent with | some p => p | none => u.startGroup + sp.relParent - 1) with
+    simp only [List.foldl_cons] at h
+    cases hmid : groupSpecStep b upd u (some s) sp with
     | none => rw [hmid, foldGroups_none] at h; exact absurd h (by simp)
-    | some mid => rw [hmid] at h; exact (shape_insertGroup s mid b upd _ _ hmid).trans (ih mid s' h)
+    | some mid =>
+      rw [hmid] at h
+      exact (shape_insertGroup s mid b upd _ _ (by simpa [groupSpecStep] using hmid)).trans (ih mid s' h)
 
 theorem shape_insertGroups (s : State) (b upd user : Nat) (specs : List GroupSpec) :
     Shape s (insertGroups s b upd user specs).1 := by
@@ -56,29 +51,55 @@ theorem shape_insertGroups (s : State) (b upd user : Nat) (specs : List GroupSpe
   all_goals first | exact Shape.refl s | skip
   next s' hr => exact shape_foldGroups b upd _ _ s s' hr
 
+/-- what an accepted bunch guarantees about the inserted rows -/
+theorem insertJobsReject_none {s : State} {b user : Nat} {u : Update} {bt : Batch} {first : JobSpec} {specs : List JobSpec}
+    (h : insertJobsReject s b user u bt first specs = none) :
+    (∀ j ∈ specs.map (mkJob u b), groupCancelled s b j.group = false ∧ (findGroup s b j.group).isSome ∧
+      findJob s b j.id = none) ∧ ((specs.map (mkJob u b)).map (·.id)).Nodup ∧ u.committed = false ∧
+      bt.user = user ∧ bt.deleted = false := by
+  unfold insertJobsReject at h
+  dsimp only at h
+  split_ifs at h with h1 h2 h3 h4 h5 h6 h7
+  simp only [not_or, Decidable.not_not, Bool.not_eq_true, List.any_eq_false] at h1 h4 h5 h6
+  refine ⟨?_, h6.2, by simpa using h2, by simpa using h1.1, by simpa using h1.2⟩
+  intro j hj
+  refine ⟨by simpa using h4 j hj, ?_, ?_⟩
+  · have := h5 j hj; simpa [Option.isSome_iff_ne_none] using this
+  · have := h6.1 j hj; simpa using this
+
+theorem shape_insertJobsApply (s : State) (b upd user : Nat) (u : Update) (bt : Batch) (first : JobSpec)
+    (specs : List JobSpec) (h : insertJobsReject s b user u bt first specs = none) :
+    Shape s (insertJobsApply s b upd u specs) := by
+  obtain ⟨hall, hnd, -⟩ := insertJobsReject_none h
+  refine ⟨⟨id, [], GroupFrame.id, by simp [insertJobsApply], by simp⟩, ⟨[], by simp [insertJobsApply]⟩,
+    ⟨id, _, JobFrame.id, by simp [insertJobsApply]; rfl⟩, ?_⟩
+  intro hu
+  refine jobsUnique_append s b _ ?_ ?_ hnd hu
+  · intro x hx; rw [List.mem_map] at hx; obtain ⟨sp, _, rfl⟩ := hx; rfl
+  · intro x hx; exact (hall x hx).2.2
+
 theorem shape_insertJobs (s : State) (b upd user : Nat) (specs : List JobSpec) :
     Shape s (insertJobs s b upd user specs).1 := by
   unfold insertJobs
-  model_split
-  all_goals first | exact Shape.refl s | skip
-  refine ⟨⟨id, [], GroupFrame.id, by simp⟩, ⟨[], by simp⟩, ⟨id, _, JobFrame.id, by simp; rfl⟩, ?_⟩
-  intro hu
-  rename_i hdup
-  refine jobsUnique_append s b _ ?_ ?_ ?_ hu
-  · intro x hx; rw [List.mem_map] at hx; obtain ⟨sp, _, rfl⟩ := hx; rfl
-  · intro x hx
-    have h1 := hdup
-    simp only [not_or, Bool.not_eq_true, List.any_eq_false, Decidable.not_not] at h1
-    have := h1.1 x hx
-    simpa using this
-  · have h1 := hdup
-    simp only [not_or, Decidable.not_not] at h1
-    exact h1.2
+  split
+  · exact Shape.refl s
+  · split
+    · split
+      · exact Shape.refl s
+      · rename_i hrej
+        exact shape_insertJobsApply s b upd user _ _ _ _ hrej
+    · exact Shape.refl s
+
+theorem shape_cancelApply (s : State) (b g : Nat) : Shape s (cancelApply s b g) :=
+  ⟨⟨id, [], GroupFrame.id, by simp [cancelApply], by simp⟩, ⟨_, rfl⟩, ⟨id, [], JobFrame.id, by simp [cancelApply]⟩,
+    JobsUnique.of_jobs_eq rfl⟩
 
 theorem shape_cancelGroup (s : State) (b g : Nat) : Shape s (cancelGroup s b g).1 := by
   unfold cancelGroup
-  model_split
-  all_goals first | exact Shape.refl s | exact ⟨⟨id, [], GroupFrame.id, by simp⟩, ⟨_, rfl⟩, ⟨id, [], JobFrame.id, by simp⟩, JobsUnique.of_jobs_eq rfl⟩
+  split_ifs
+  · exact Shape.refl s
+  · exact Shape.refl s
+  · exact shape_cancelApply s b g
 
 theorem shape_deleteBatch (s : State) (b : Nat) : Shape s (deleteBatch s b).1 := by
   unfold deleteBatch
@@ -86,11 +107,8 @@ theorem shape_deleteBatch (s : State) (b : Nat) : Shape s (deleteBatch s b).1 :=
   · exact Shape.refl s
   · split_ifs
     · exact Shape.refl s
-    · have h0 : Shape s { s with batches := s.batches.map fun (x : Batch) => if x.id = b then { x with deleted := false } else x } :=
-        Shape.of_eq rfl rfl rfl
-      have h1 := shape_cancelGroup { s with batches := s.batches.map fun (x : Batch) => if x.id = b then { x with deleted := false } else x } b 0
-      refine (h0.trans h1).trans ?_
-      exact Shape.of_eq rfl rfl rfl
+    · exact Shape.of_eq rfl rfl rfl
+    · exact (shape_cancelApply s b 0).trans (Shape.of_eq rfl rfl rfl)
 
 theorem groupFrame_setStateJobs (p : Group → Prop) [DecidablePred p] (st : Group → GState) (n : Group → Int) :
     GroupFrame (fun g => if p g then { g with state := st g, nJobs := n g } else g) :=
@@ -100,9 +118,9 @@ theorem shape_commitUpdate (s : State) (b upd : Nat) : Shape s (commitUpdate s b
   unfold commitUpdate
   model_split
   all_goals first | exact Shape.refl s | exact Shape.of_eq rfl rfl rfl | skip
-  · exact ⟨⟨_, [], groupFrame_setStateJobs _ _ _, by rw [List.append_nil]⟩, ⟨[], by simp⟩, ⟨id, [], JobFrame.id, by simp⟩, JobsUnique.of_jobs_eq rfl⟩
+  · exact ⟨⟨_, [], groupFrame_setStateJobs _ _ _, by rw [List.append_nil], by simp⟩, ⟨[], by simp⟩, ⟨id, [], JobFrame.id, by simp⟩, JobsUnique.of_jobs_eq rfl⟩
   · refine Shape.trans (b := _) ?_ (shape_updateJobs _ _ _ ?_)
-    · exact ⟨⟨_, [], groupFrame_setStateJobs _ _ _, by rw [List.append_nil]⟩, ⟨[], by simp⟩, ⟨id, [], JobFrame.id, by simp⟩, JobsUnique.of_jobs_eq rfl⟩
+    · exact ⟨⟨_, [], groupFrame_setStateJobs _ _ _, by rw [List.append_nil], by simp⟩, ⟨[], by simp⟩, ⟨id, [], JobFrame.id, by simp⟩, JobsUnique.of_jobs_eq rfl⟩
     · intro x
       refine ⟨rfl, rfl, rfl, rfl, rfl, rfl, rfl, ?_⟩
       intro hx; dsimp only; split_ifs <;> simp_all
@@ -176,7 +194,7 @@ theorem shape_startLike (s : State) (b j a i : Nat) (ts : Int) (d : Nat) (need :
 theorem shape_markGroupsComplete (s : State) (b g : Nat) : Shape s (markGroupsComplete s b g) := by
   unfold markGroupsComplete
   exact ⟨⟨_, [], GroupFrame.ite _ (F := fun x => { x with state := .complete }) (fun _ => ⟨rfl, rfl, rfl, rfl⟩),
-    by rw [List.append_nil]⟩, ⟨[], by simp⟩, ⟨id, [], JobFrame.id, by simp⟩, JobsUnique.of_jobs_eq rfl⟩
+    by rw [List.append_nil], by simp⟩, ⟨[], by simp⟩, ⟨id, [], JobFrame.id, by simp⟩, JobsUnique.of_jobs_eq rfl⟩
 
 theorem shape_completePrep (s : State) (b j : Nat) (att inst : Option Nat) (st e : Option Int) (r : String) (d : Nat)
     (job : Job) : Shape s (completePrep s b j att inst st e r d job) := by
@@ -195,7 +213,7 @@ theorem groupFrame_tally (ns : JState) : GroupFrame (tally ns) := fun _ => ⟨rf
 
 theorem shape_tallyGroups (s : State) (b g : Nat) (ns : JState) : Shape s (tallyGroups s b g ns) := by
   unfold tallyGroups
-  exact ⟨⟨_, [], GroupFrame.ite _ (groupFrame_tally ns), by rw [List.append_nil]⟩, ⟨[], by simp⟩, ⟨id, [], JobFrame.id, by simp⟩, JobsUnique.of_jobs_eq rfl⟩
+  exact ⟨⟨_, [], GroupFrame.ite _ (groupFrame_tally ns), by rw [List.append_nil], by simp⟩, ⟨[], by simp⟩, ⟨id, [], JobFrame.id, by simp⟩, JobsUnique.of_jobs_eq rfl⟩
 
 theorem shape_completeBatchIfDone (s : State) (b : Nat) : Shape s (completeBatchIfDone s b) := Shape.of_eq rfl rfl rfl
 
